@@ -302,6 +302,10 @@ def _mk_asset(kind, name, nodes, rng):
         t0 = pd.Timestamp(2021, 1, 1)
         orders = {'start': [t0 - pd.Timedelta(5, 'd'), t0 + pd.Timedelta(1, 'h')], 'end': [t0 - pd.Timedelta(4, 'd'), t0 + pd.Timedelta(3, 'h')],
                   'capa': [1., 1.], 'price': [1., -5.]}
+        if rng.random() < .5:
+            # the outside order (after the horizon) as the LAST one: the book's last variable has no mapping row
+            orders = {'start': [t0 + pd.Timedelta(1, 'h'), t0 + pd.Timedelta(9, 'd')], 'end': [t0 + pd.Timedelta(3, 'h'), t0 + pd.Timedelta(10, 'd')],
+                      'capa': [1., 2.], 'price': [-5., 1.]}
         return eao.assets.OrderBook(name=name, nodes=n0, orders=orders)
     if kind == 'early_contract':
         t0 = pd.Timestamp(2021, 1, 1)
